@@ -79,6 +79,7 @@ pub fn catalogue() -> Vec<Deviation> {
         dev!("opt_num_args_0_inf", |c| { o(c).num_args = Some((0, None)); }),
         dev!("opt_require_equals", |c| { o(c).require_equals = true; }),
         dev!("opt_delimiter", |c| { o(c).delimiter = Some(','); }),
+        dev!("opt_delimiter_wide", |c| { o(c).delimiter = Some('、'); }),
         dev!("opt_terminator", |c| {
             o(c).terminator = Some(";".into());
             if o(c).num_args.is_none() { o(c).num_args = Some((1, None)); }
@@ -135,6 +136,7 @@ pub fn catalogue() -> Vec<Deviation> {
             if p(c).num_args.is_none() { p(c).num_args = Some((1, None)); }
         }),
         dev!("pos_delimiter", |c| { p(c).delimiter = Some(','); }),
+        dev!("pos_delimiter_wide", |c| { p(c).delimiter = Some('、'); }),
         dev!("pos_os_parser", |c| { p(c).parser = Vp::Os; }),
         // ---- flag shape
         dev!("flag_count", |c| { a(c).action = Some(Act::Count); }),
@@ -221,6 +223,11 @@ pub fn alphabet(c: &CmdSpec) -> Vec<Vec<u8>> {
     let has_dev = |f: &dyn Fn(&CmdSpec) -> bool| f(c);
     if has_dev(&|c| c.args.iter().any(|a| a.terminator.is_some())) {
         add(b";");
+    }
+    if has_dev(&|c| c.args.iter().any(|a| a.delimiter.map(|d| !d.is_ascii()).unwrap_or(false))) {
+        add("w、x".as_bytes());
+        add("--opt=w、".as_bytes());
+        add("-ow、x".as_bytes());
     }
     if c.has(Setting::InferLongArgs) {
         add(b"--al");
